@@ -25,7 +25,9 @@ CLAIMS = {
              "transform text is one of four templates, a part is omitted only when it is the identity, its numerals "
              "are the scale/translate of SVG 2 section 8.2, and Matrix(text) is that transform; lemmas prove "
              "inside/over, touching and per-axis alignment; incomplete viewBox gives no transform; zero viewBox size "
-             "raises ZeroDivisionError only (SVG.parse turns that into 'rendering disabled': bounded check).",
+             "raises ZeroDivisionError only (SVG.parse turns that into 'rendering disabled': bounded check). B: the ways the "
+             "element size is supplied to SVG.parse (attributes with units/percentages, caller size, viewBox default) and "
+             "nested viewports (an inner svg without preserveAspectRatio uses the default whatever its ancestors say).",
         note="floats as reals (A1): the 12-decimal formatting of the numerals is opaque (A5); SVG.parse defaulting of "
              "width/height is document-level and only bounded-checked",
         technique="deductive verification: VCs from the real AST, z3; sidecar contracts",
@@ -49,7 +51,8 @@ CLAIMS = {
              "32-bit words (integer VCs, discharged through an exact bit-vector translation). rgb()/rgba()/percent "
              "forms for all numeric arguments (clamping, rounding). hsl_to_int equals 255 x the CSS colour of the hue "
              "modulo a full turn for every saturation/lightness and every hue fraction, whole turns -3..3 enumerated; "
-             "hsl()/hsla() text and the h/s/l setters are verified against that contract (modular rule). Hex forms on "
+             "hsl()/hsla() text and the h/s/l setters are verified against that contract (modular rule); the hue, saturation "
+             "and lightness getters equal the standard RGB -> HSL conversion for all 2^24 channel values. Hex forms on "
              "representative digit strings; exhaustive 3/4-digit strings and Color(c.hex)==c are bounded checks.",
         note="A1 reals; A4 integers mathematical; A5: regexes/int()/float()/str.lower run natively on concrete text, "
              "numerals opaque; hue periodicity beyond |3| turns rests on Python's float % (A1)",
@@ -71,7 +74,7 @@ CLAIMS.update({
     'C15': dict(level='other', text='P: Linear.length is the Euclidean distance (0 without start), moves contribute 0, distance is invariant under rotation/reflection/translation/reversal and scales by |s| (lemma), circular arc shortcut radius*angle. P-shape-bounded: Shape.length = sum, fractions, Shape.point walk on a representative path, also from a state whose cache is invalid and holds stale fractions; 12 Path / Subpath mutators (append, insert, extend, setitem, delitem, +=, line, closed, reverse, reify, subpath reverse, subpath *=) leave the cached lengths invalid or consistent and length() afterwards is the sum over the present segments. B: true arc length vs Gauss-Legendre quadrature for all segment kinds and error settings.', note='accuracy of the recursive chord subdivision / quadratic closed form is an open finding (error semantics of segment_length)', technique='deductive verification of kernels (pyvc VCs, z3) + labelled bounded run-time contract checks on the real code', design='5 (C15)', assumptions=['A1', 'A2', 'A3', 'A7']),
     'C16': dict(level='other', text='P: per-segment reversal q(t)=p(1-t) for Line/Close/Quadratic/Cubic, involution, Arc.reverse swaps endpoints and negates the sweep keeping the ellipse, Subpath.__imul__ window; an arc that was evaluated and is then reversed or transformed answers like a newly built one (no stale hidden state; t_at_point / point_at_angle / angle_at_point enter through an audited frame contract). S: Path.reverse on 9 and Subpath.reverse on 10 representative kind sequences with symbolic coordinates: reversed order, each segment reversed, closes stay closed, other subpaths untouched, no Point object shared between segments, a following in-place transform maps every point exactly once, twice restores; every Path mutator leaves the cached lengths invalid or consistent. B: 40k paths: all structures with <=3 subpaths and <=5 segments, whole-path and subpath-view reversal, twice, interleaved with a transform, against an independent reversal.', note='path-level relinking of subpaths without their own move is bounded only; five defect classes for subpaths without their own move are open findings', technique='deductive verification of kernels (pyvc VCs, z3) + labelled bounded run-time contract checks on the real code', design='5 (C16)', assumptions=['A1', 'A2', 'A7']),
     'C17': dict(level='other', text='P: Path.__iadd__/__add__ with text equal continuing the parse on the stored state (state-dependent tails t, l, s, z after each kind of prefix), __add__ leaves the operand unchanged and shares nothing, Move + text; the continuation itself is the C01 step obligations, which depend on the stored segments only. B: 50k command-boundary splits of grammar strings.', note='as C01', technique='deductive verification of kernels (pyvc VCs, z3) + labelled bounded run-time contract checks on the real code', design='5 (parser cluster)', assumptions=['A1', 'A2', 'A5', 'A7']),
-    'C18': dict(level='other', text='P (decided on the final symbolic heap): copy of Point/Matrix/Color/Length and of every segment kind (with and without start, all flags) is equal in value, a distinct object, shares no mutable object and leaves the source unchanged; Matrix operators fresh/unchanged (C04). P-shape-bounded: copy(shape), Path(path/subpath/shape), shape*M, abs(shape), Group copy with nested group - reach(result) and reach(source) disjoint - on representative segment/point lists.', note='list-valued fields have a representative shape (one element of every kind)', technique='deductive verification of kernels (pyvc VCs, z3) + labelled bounded run-time contract checks on the real code', design='5 (C18)', assumptions=['A1', 'A2', 'A5', 'A7']),
+    'C18': dict(level='other', text='P (decided on the final symbolic heap): copy of Point/Matrix/Color/Length and of every segment kind (with and without start, all flags) is equal in value, a distinct object, shares no mutable object and leaves the source unchanged; x * M for Point (both operand orders), Matrix and every segment kind with an arbitrary matrix (the identity included) is a new object sharing nothing with either operand; Matrix operators fresh/unchanged (C04). P-shape-bounded: path + path / path += path / path + subpath copy the appended segments; paints colour / none / unset; copy(shape), Path(path/subpath/shape), shape*M, abs(shape), Group copy with nested group - reach(result) and reach(source) disjoint - on representative segment/point lists.', note='list-valued fields have a representative shape (one element of every kind)', technique='deductive verification of kernels (pyvc VCs, z3) + labelled bounded run-time contract checks on the real code', design='5 (C18)', assumptions=['A1', 'A2', 'A5', 'A7']),
     'C19': dict(level='other', text='P: zero extent yields no curves. P-shape-bounded (explicit counts 0,1,2,3,5; coordinates, radii, rotation, sweep symbolic): exactly n curves of the requested kind, first starts at the arc start, last ends at the arc end, consecutive curves join exactly, no point object shared with the arc; for counts 1,2,3 and both orientations of the stored radius vectors: interior joints are the arc points at equal parameter steps, cubic control points lie on the arc tangents at both ends in the direction of travel, quadratic control points on the ray through the mid-parameter point; Path.approximate_arcs_with_cubics/quads on 7 kind sequences (arc first, last, alone, repeated, before a close): no arc remains, each became its chain in place, other segments untouched, path connected. B: radial error <= 1e-3 / 1e-2 of the larger radius at the default subdivision and non-increasing under refinement; paths with embedded arcs.', note='the error bound is an accuracy claim checked only on the bounded family', technique='deductive verification of kernels (pyvc VCs, z3) + labelled bounded run-time contract checks on the real code', design='5 (C19)', assumptions=['A1', 'A2', 'A3', 'A7']),
     'C20': dict(level='exploration', text='Bounded: documents of the C03 generator and constructor-built trees, string_xml / write_xml (svg, svgz), re-parse and compare shapes, geometry (1e-6), paint, ids; second generation stability.', note='document-level; 8 defect classes are open findings', technique='bounded run-time contract write -> parse on the real code', design='5 (document cluster)', assumptions=['A2', 'A7']),
 })
